@@ -113,6 +113,10 @@ Chain(d, i, m) == SetToSortSeq(ChainSet(d, i, m), <)
 WeakPath(path, lastEl) ==
     \A j \in 1..Len(path) : path[j] \in 1..Len(doc) /\ doc[path[j]].k = "H" /\ path[j] <= lastEl
 
+\* the section title a chunk shows (as a heading element; -1 = not observed) is the
+\* innermost heading of its section path
+TitleOK(ch) == IF ch.title = -1 \/ Len(ch.path) = 0 THEN TRUE ELSE ch.title = ch.path[Len(ch.path)]
+
 EmitOK(ch) ==
     /\ ch.k >= 1
     /\ ch.first = consumed + 1
@@ -125,6 +129,7 @@ EmitOK(ch) ==
           /\ ch.ps >= SetMin(pgs) /\ ch.pe <= SetMax(pgs)
           /\ \/ \E i \in els : \E m \in {7, minor} : ch.path = Enclosing(doc, i, m)
              \/ minor = 0 /\ WeakPath(ch.path, SetMax(els))
+          /\ TitleOK(ch)
 
 Consume(ch) ==
     /\ consumed' = consumed + ch.k
@@ -177,7 +182,7 @@ LegalChunks ==
     {ch \in [first : {consumed + 1}, k : 1..(NUnits(doc) - consumed), index : {nchunks},
              id : {nchunks},
              ps : ToSet(pages), pe : ToSet(pages),
-             path : {Enclosing(doc, i, 7) : i \in 1..Len(doc)}] : EmitOK(ch)}
+             path : {Enclosing(doc, i, 7) : i \in 1..Len(doc)}, title : {-1}] : EmitOK(ch)}
 
 ContractNext ==
     \/ \E ch \in LegalChunks : Emit(ch)
@@ -216,7 +221,7 @@ PathRef(c, m, shared) ==
 Resolve(p) == IF p.ref THEN SubSeq(mem[p.arr], 1, p.len) ELSE p.val
 
 ImplChunk(first, k, pg, pref) ==
-    [first |-> first, k |-> k, index |-> nchunks, id |-> nchunks, ps |-> pg, pe |-> pg, path |-> pref]
+    [first |-> first, k |-> k, index |-> nchunks, id |-> nchunks, ps |-> pg, pe |-> pg, path |-> pref, title |-> -1]
 
 \* everything of EmitOK except the path, which is judged when the walk is over
 \* (PathsTrue), because a shared slice can still change
